@@ -399,7 +399,7 @@ def run(ctx):
         ctx.count("corpus_cases")
     # ---- generated
     n_msgs = {"corpus": 12, "matrix-0.5": 70, "matrix-0.2": 25, "matrix-0.8": 25, "matrix-all": 12, "matrix-none": 8}
-    scale = 1 if not ctx.thorough else 5
+    scale = 1 if not ctx.thorough else 4
     for pi, (newer, older, masks, label) in enumerate(pairs_s):
         n = n_msgs.get(label, 22) * scale
         for _ in range(n):
